@@ -682,6 +682,15 @@ func (metadata *Metadata) getStartTime() time.Time {
 }
 
 func (self *Fork) cleanSplitTemp(partial *PartialVdrKillReport) *PartialVdrKillReport {
+	if partial == nil {
+		// doChunks does not know whether an earlier pass (before a
+		// restart, or before a chunk was retried) has been here already.
+		// Starting a new report would erase what that pass recorded.
+		partial = self.getPartialKillReport()
+	}
+	if partial != nil && partial.Split {
+		return partial
+	}
 	if tempPaths, err := self.split_metadata.enumerateTemp(); err != nil {
 		return partial
 	} else if filesPaths, err := self.split_metadata.enumerateFiles(); err != nil {
